@@ -49,7 +49,12 @@ def oracle(ctx, strings, outcomes):
                 parse_cdc(text)
                 ctx.count("oracle:reserialised")
             except BaseException as e:  # noqa
-                ctx.add_failing("reserialise", s, observed=f"{type(e).__name__} for {text}", expected="extended serialisation accepted",
+                if "too many levels of nested connections" in str(e):
+                    # the extended form brackets every sub-circuit, so a code accepted just below CPython's recursion limit can
+                    # print to one above it: runtime limit, not modelled (see assumptions)
+                    ctx.count("oracle:reserialise:recursion-limit(runtime)")
+                    continue
+                ctx.add_failing("reserialise", s[:2000], observed=f"{type(e).__name__} for {text[:2000]}", expected="extended serialisation accepted",
                                 repro=f"parse_cdc(parse_cdc({s!r}).serialize())", clause="its extended serialisation is itself accepted")
 
 
@@ -69,6 +74,10 @@ def streams(ctx, big):
                 four.append("".join(t))
         out.append(("exhaustive=4 slice %d/8" % k, four))
     deep = ["[" * n + "RC" + "]" * n for n in (50, 2000)] + ["(" * n + "RC" + ")" * n for n in (50, 2000)]
+    # nesting through the sub-circuits of container elements (bare, bracketed and mixed forms) is recursion too
+    for tmpl in ("Tlm{X_1=%s}", "Tlm{X_1=R%sC}", "Tlm{Zeta=[R%s]}", "R(CTlm{X_2=%sL})", "Tlm{X_1=(R%s)}"):
+        a, b = tmpl.split("%s")
+        deep += [a * n + "R" + b * n for n in (3, 40, 150, 260, 400, 2000)]
     out.append(("deep-nesting", deep))
     return out
 
